@@ -122,6 +122,12 @@ class C16(Prop):
                     return names[0], ch
                 if mode == "chain":
                     std, chain = mkchain("a")
+                elif rnd.randint(0, 2) == 0:
+                    # a later `+` segment that only selects a dialect (no globals), after segments that select none
+                    open(os.path.join(pd, "g0.yml"), "w").write("---\n" + yaml.safe_dump({"globals": {"print": {"args": [{"type": "..."}]}}}))
+                    v = rnd.choice(VNAMES)
+                    open(os.path.join(pd, "d0.yml"), "w").write("---\n" + yaml.safe_dump({"lua_versions": [v]}))
+                    std, chain = "g0+d0", [[], [v]]
                 else:
                     s1, c1 = mkchain("a")
                     s2, c2 = mkchain("b")
@@ -129,12 +135,14 @@ class C16(Prop):
             cname = rnd.choice(sorted(CONSTRUCTS))
             src = rnd.choice(CONSTRUCTS[cname])
             open(os.path.join(pd, "selene.toml"), "w").write('std = "%s"\n' % std)
-            open(os.path.join(pd, "t.lua"), "w").write(src)
+            # the dialect comes from the library, not from the file's extension
+            fname = "t.luau" if rnd.randint(0, 3) == 0 else "t.lua"
+            open(os.path.join(pd, fname), "w").write(src)
             idx = OFFSET + len(items)
             if only is not None and only != idx:
                 items.append(("", {}))
                 continue
-            rc, out, err = cli.run_selene(pd, ["--display-style", "json2", "--num-threads", "1", "t.lua"])
+            rc, out, err = cli.run_selene(pd, ["--display-style", "json2", "--num-threads", "1", fname])
             diags, summ, junk = cli.parse_output(out, "json2")
             if "panicked" in err:
                 res = "PPanic"
@@ -145,7 +153,7 @@ class C16(Prop):
             else:
                 res = "PPanic"  # no summary, no diagnostics: the run died (e.g. std not loadable)
             term = "CCli %s %s %s" % (cli.glist(gversions(vs) for vs in chain), cname, res)
-            items.append((term, {"kind": "cli-" + mode, "std": std, "chain_versions": chain, "construct": cname,
+            items.append((term, {"kind": "cli-" + mode, "std": std, "chain_versions": chain, "construct": cname, "file": fname,
                                  "source": src, "result": res, "exit": rc, "stderr": err[-300:],
                                  "nontrivial": len(chain) > 1}))
         cli.write_shards(wd, "C16", items, only=only, offset=OFFSET, first_shard=16)
